@@ -46,6 +46,68 @@ class WholeFile:
         return [e for e in self.events if e["k"] in kinds]
 
 
+def _split_args(t):
+    out = []; depth = 0; cur = ""
+    for ch in t:
+        if ch in "([{<": depth += 1
+        if ch in ")]}>": depth -= 1
+        if ch == "," and depth == 0: out.append(cur); cur = ""
+        else: cur += ch
+    if cur.strip(): out.append(cur)
+    return [x.strip() for x in out]
+
+
+def _params(f):
+    m = re.search(r"\((.*)\)", f.sig or "", flags=re.S)
+    if not m: return []
+    ps = [re.sub(r"^\s*(mut\s+)?", "", x).split(":")[0].strip() for x in _split_args(m.group(1))]
+    return [x for x in ps if x and "self" not in x.split()]
+
+
+def expand(W, text, depth=0):
+    """whitespace-free form of an expression with simple helpers inlined: a call `h(a, b)` of a generator function whose body is one
+    `format!(..)` becomes that format! with the parameters replaced by the arguments; an identifier that is a parameter of its
+    (single) enclosing helper is replaced by what every caller passes"""
+    t = nz(text)
+    m = re.fullmatch(r"&?(\w+)\((.*)\)", t)
+    if m and depth < 3:
+        gs = [g for g in W.fns if g.name == m.group(1)]
+        if len(gs) == 1:
+            fm = [e for e in gs[0].events if e["k"] == "macro" and e["name"] == "format"]
+            if len(fm) == 1:
+                body = "format!(" + nz(tt_str(fm[0]["tokens"])) + ")"
+                for prm, arg in zip(_params(gs[0]), _split_args(m.group(2))):
+                    body = re.sub(r"(?<![\w.])%s(?!\w)" % re.escape(prm), arg.lstrip("&"), body)
+                return body
+    return t
+
+
+def subst_params(W, f_of_let, t):
+    """replace parameters of the function a `let` lives in by the (unanimous) argument its callers pass"""
+    if f_of_let is None: return t
+    ps = _params(f_of_let)
+    for i, prm in enumerate(ps):
+        if not re.search(r"(?<![\w.])%s(?!\w)" % re.escape(prm), t): continue
+        args = set()
+        for g in W.fns:
+            if g is f_of_let: continue
+            for e in g.events:
+                if e["k"] == "call" and e["text"].split("::")[-1] == f_of_let.name and i < len(e["args"]): args.add(nz(e["args"][i]).lstrip("&"))
+        if len(args) == 1:
+            t = re.sub(r"(?<![\w.])%s(?!\w)" % re.escape(prm), args.pop(), t)
+    return t
+
+
+def let_value(W, name):
+    """expanded initialisers of `let <name> = ..` anywhere in the generator"""
+    out = []
+    for f in W.fns:
+        for l in f.events:
+            if l["k"] == "let" and l["pat"].replace(" ", "").split(":")[0].replace("mut", "", 1) == name:
+                out.append(subst_params(W, f, expand(W, l["text"])))
+    return out
+
+
 def run(cx):
     cx.rule("C08.R1", "wire names are the IDL names: every identifier emitted in field or variant position of a serde-derived type is built from the IDL name by the raw-identifier constructor only (no case conversion, no serde rename anywhere in the templates)")
     cx.rule("C08.R2", "optional members are omitted: wherever method-input, reply or error-parameter fields are emitted, an Option-typed IDL member gets skip_serializing_if = \"Option::is_none\" (typedef struct fields have no annotation slot: they serialise as null, which the statement allows)")
@@ -130,8 +192,9 @@ def r2(cx, ast):
 def r3(cx, ast):
     f = WholeFile(ast, GEN)
     lets = {l["pat"].replace(" ", ""): l["text"].replace(" ", "") for l in f.events if l["k"] == "let"}
-    cx.check(lets.get("varlink_method_name") == 'format!("{}.{}",idl.name,t.name)', "C08.R3", "gen:varlink_method_name:definition", GEN,
-             "varlink_method_name is %s (expected format!(\"{}.{}\", idl.name, t.name))" % lets.get("varlink_method_name"), note_ok="<interface>.<Method>")
+    vm = let_value(f, "varlink_method_name")
+    cx.check(vm == ['format!("{}.{}",idl.name,t.name)'], "C08.R3", "gen:varlink_method_name:definition", GEN,
+             "varlink_method_name is %s (expected format!(\"{}.{}\", idl.name, t.name))" % vm, note_ok="<interface>.<Method>")
     uses = []
     for e, txt in quotes(f):
         if "varlink_method_name" in interps(e["tokens"]): uses.append(txt)
@@ -141,8 +204,8 @@ def r3(cx, ast):
     # no other string literal used as method
     okc = all(re.search(r"::new\(self\.connection\.clone\(\),#varlink_method_name,#in_struct_name\{", t) for t in client)
     cx.check(okc, "C08.R3", "gen:client-stub-template", GEN, "the client stub does not pass #varlink_method_name and the argument struct to MethodCall::new", note_ok="MethodCall::new(connection, #varlink_method_name, #in_struct_name{..})")
-    cx.check(lets.get("iname") == "idl.name" and lets.get("description") == "idl.description", "C08.R3", "gen:name-and-description", GEN,
-             "get_name/get_description are %s / %s" % (lets.get("iname"), lets.get("description")), note_ok="iname = idl.name, description = idl.description (the whole input, C11.R3)")
+    cx.check(let_value(f, "iname") == ["idl.name"] and let_value(f, "description") == ["idl.description"], "C08.R3", "gen:name-and-description", GEN,
+             "get_name/get_description are %s / %s" % (let_value(f, "iname"), let_value(f, "description")), note_ok="iname = idl.name, description = idl.description (the whole input, C11.R3)")
     cand = [t for _, t in quotes(f) if "fnget_description(" in t]
     last = cand[-1] if cand else ""
     cx.check("fnget_description(&self)->&'staticstr{#description}" in last and "fnget_name(&self)->&'staticstr{#iname}" in last
@@ -156,17 +219,19 @@ def r4(cx, ast):
     for l in f.events:
         if l["k"] == "let": lets.setdefault(l["pat"].replace(" ", ""), []).append(l["text"].replace(" ", ""))
     want = 'format!("{iname}.{ename}",iname=idl.name,ename=t.name)'
-    a = lets.get("error_name", [None])[0]; b = lets.get("errorname", [None])[0]
+    a = (let_value(f, "error_name") or [None])[0]; b = (let_value(f, "errorname") or [None])[0]
     cx.check(a == want and b == want, "C08.R4", "gen:error-name:definitions", GEN, "error names are built as %s (client side) and %s (server side)" % (a, b), note_ok="both: <interface>.<Error>")
     arm = [t for e, t in quotes(f) if "error_name" in interps(e["tokens"])]
     emit = [t for e, t in quotes(f) if "errorname" in interps(e["tokens"])]
     ok_arm = len(arm) == 1 and re.search(r"if\w+==#error_name=>", arm[0]) and re.search(r"serde_json::from_value\(\w+(\.clone\(\))?\)", arm[0]) and re.search(r"Ok\((\w+)\)=>#ename\(\1\)", arm[0])
     ok_arm = bool(ok_arm)
-    ok_emit = len(emit) == 1 and "varlink::Reply::error(#errorname,#parms)" in emit[0]
+    ok_emit = len(emit) == 1 and re.search(r"varlink::Reply::error\(#errorname,#\w+\)", emit[0]) is not None
     cx.check(ok_arm, "C08.R4", "gen:error-arm-template", GEN, "the From<&Reply> arm does not compare the error name by exact equality and deserialise the parameters into the variant payload", note_ok="t == #error_name -> from_value(p) -> #ename(v)")
     cx.check(ok_emit, "C08.R4", "gen:error-emitter-template", GEN, "reply_<error>() does not emit Reply::error(#errorname, #parms)", note_ok="Reply::error(#errorname, #parms)")
     pj = [l for l in lets.get("parms", []) + [e["text"].replace(" ", "") for e in f.events if e["k"] == "assign" and e.get("lhs", "").strip() == "parms"]]
-    okp = any("Some(serde_json::to_value(#args_name{#(#innames2),*})" in p for p in pj) and any(p == "quote!(None)" for p in pj)
+    allq = [t for _, t in quotes(f)]
+    okp = (any("Some(serde_json::to_value(#args_name{#(#innames2),*})" in p for p in pj) and any(p == "quote!(None)" for p in pj)) or \
+          (any(re.search(r"^Some\(serde_json::to_value\(#\w+\{#\(#\w+\),\*\}\)", t) for t in allq) and any(t == "None" for t in allq))
     cx.check(okp, "C08.R4", "gen:error-parameters", GEN, "error parameters are not serialised from <Error>_Args{..} (or None when the error has none): %s" % pj, note_ok="Some(to_value(<Error>_Args{..})) | None")
     # the library-side mapping of standard errors uses exact names too (shared with C07.R6, decided on the MIR)
     from .C07 import _name_tests, STD_ERRORS
